@@ -1073,13 +1073,15 @@ def is_blocking(node: ast.AST, parent_type: ast.AST = None) -> bool:
         try:
             test_value = literal_value(node.test)
         except ValueError:
-            pass
+            # The loop may run zero times, and then whatever follows it is reached
+            return False
         else:
             if not test_value:
                 return False
 
             for child in node.body:
-                if isinstance(child, ast.Break):
+                if any(walk(child, ast.Break)):
+                    # A break, perhaps under some condition, gets out of the loop
                     return False
                 if is_blocking(child, type(node)):
                     return True
